@@ -331,3 +331,19 @@ func (f *rfile) expect(name string) (*Expect, error) {
 	}
 	return e, nil
 }
+
+// singleKernelSymbol reports whether the file defines exactly one sized symbol in .text (of any type): only then
+// does the loader resolve the empty kernel name to "the only kernel"; with several it ends the process with a
+// message (documented behaviour, not a subject of the property).
+func (f *rfile) singleKernelSymbol() bool {
+	n := 0
+	for _, s := range f.syms {
+		if s.shndx == 0 || int(s.shndx) >= len(f.secs) {
+			continue
+		}
+		if f.secs[s.shndx].name == ".text" && s.size > 0 {
+			n++
+		}
+	}
+	return n == 1
+}
